@@ -89,3 +89,21 @@ Example C03_nonvacuous :
   contiguous_b 4 [[0%nat; 1%nat]; [2%nat]; [3%nat]] = true /\ contiguous_b 4 [[0%nat; 2%nat]; [1%nat]; [3%nat]] = false /\
   monotone_b [(1, 0); (5, 0); (6, 1)]%Z = true /\ monotone_b [(1, 1); (5, 0)]%Z = false.
 Proof. vm_compute. repeat split. Qed.
+
+(* categorical modalities: the fitted leaders are in training target-rate order (NaN rates last, the
+   missing-value sentinel last of all): the comparator of the sort is a total preorder on ALL binary64
+   values, so the sorted list is globally ordered, whatever the sample *)
+From AC.Model Require Import Categorical.
+From AC.Proofs Require Import CategoricalOrderProofs.
+Theorem C03_categorical_leaders_in_target_rate_order : forall mf nan_cnt order d st,
+  categorical_fit mf nan_cnt order d = Ok (Some st) ->
+  cs_keys st = (map fst (cs_rates st) ++ (if (0 <? nan_cnt)%Z then [Quantiles.str_nan] else []))%list /\
+  cs_rates st = sort_rates (cat_training_rates mf nan_cnt order d) /\
+  Sorted rate_le (cs_rates st) /\
+  Permutation (cs_rates st) (cat_training_rates mf nan_cnt order d).
+Proof. exact categorical_leaders_in_rate_order. Qed.
+Print Assumptions C03_categorical_leaders_in_target_rate_order.
+
+Theorem C03_rate_order_is_global : forall l, StronglySorted rate_le (sort_rates l).
+Proof. exact sort_rates_strongly_sorted. Qed.
+Print Assumptions C03_rate_order_is_global.
